@@ -1748,6 +1748,9 @@ func (t *itype) lookupField(name string) []int {
 		// The field promoted from the shallowest embedded field is selected.
 		var index []int
 		for i, f := range typ.field {
+			if !f.embed && typ.cat == structT {
+				continue // only the fields of embedded structs are promoted
+			}
 			switch f.typ.cat {
 			case ptrT, structT, interfaceT, linkedT:
 				if tias != isStruct(f.typ) {
